@@ -272,6 +272,9 @@ case("F64 empty expected_groups with sort=False", lambda: groupby_reduce(np.aran
 # F65
 case("F65 IntervalIndex with gaps", lambda: groupby_reduce(np.ones(12), np.array([0.0, 0.5, 1.0, 1.5, 2.0, 2.5, 3.0, 4.0, 5.0, 5.5, 6.0, 7.0]), expected_groups=pd.IntervalIndex.from_tuples([(0, 1), (2, 3), (5, 6)]), func="count")[0].tolist(), lambda r: r == [2, 2, 2])
 
+# F66
+case("F66 max on the numba engine with a NaN member", lambda: groupby_reduce(np.array([1.0, np.nan, 2.0]), np.array([0, 0, 0]), func="max", engine="numba")[0].tolist(), lambda r: r[0] != r[0])
+
 bad = 0
 for name, verdict in results:
     print(f"{name:55s} {verdict}")
